@@ -74,7 +74,8 @@ pub fn replay(c: &Value) -> Option<(String, String)> {
     let tail = c["tail"].as_u64()? as usize;
     let texts: Vec<String> = serde_json::from_value(c["texts"].clone()).ok()?;
     let desc = c["desc"].as_str()?;
-    check_model(&spec, pt, tail, &texts).map(|(k, w)| (format!("{k} {desc} pt={} tail={tail}", pt as u8), w))
+    let clip = c["clip"].as_u64().unwrap_or(u64::MAX) as usize;
+    check_model(&spec, pt, tail, &texts).map(|(k, w)| (format!("{k} {desc} pt={} tail={tail}", pt as u8), if w.chars().count() > clip { w.chars().take(clip).collect() } else { w }))
 }
 
 pub fn run(tier: Tier) -> ! {
@@ -101,6 +102,25 @@ pub fn run(tier: Tier) -> ! {
     pool.extend(crate::c01::cache_table_family());
     pool.extend(crate::c01::sparse_large_window_family());
     pool.extend(crate::c06::scale_tag_family(tier.pick(5000, 70000)));
+    pool.extend(crate::c01::many_entries_family(tier));
+    // F12: one long vector per model, with its own texts (the long pattern occurs in them)
+    {
+        let f12 = crate::c01::long_vector_family(tier);
+        chk.set("long_vector_models", json!(f12.len()));
+        f12.par_iter().enumerate().for_each(|(i, (desc, spec, extra))| {
+            let mut t: Vec<String> = extra.clone();
+            t.extend(["a", "ab", "ba", "aあa"].iter().map(|x| x.to_string()));
+            for pt in [false, true] {
+                let tail = (i + pt as usize) % 4;
+                chk.eval(t.len() as u64);
+                chk.nontrivial(t.len() as u64);
+                if let Some((k, what)) = check_model(spec, pt, tail, &t) {
+                    let what: String = what.chars().take(400).collect();
+                    chk.violation(format!("{k} {desc} pt={} tail={tail}", pt as u8), what, json!({"desc": desc, "spec": spec, "predict_tags": pt, "tail": tail, "texts": t, "clip": 400}));
+                }
+            }
+        });
+    }
     chk.set("models", json!(pool.len()));
     chk.set("texts", json!(texts.len()));
     pool.par_iter().enumerate().for_each(|(i, (desc, spec))| {
